@@ -638,6 +638,13 @@ class DiskFile(VirtualFileContainer):
         if not allocated_granules:
             return
 
+        if first_granule and postamble:
+            # The postamble follows the data within the file, wherever the next granule lies on the disk
+            trailer = [0x00] * postamble.length
+            postamble.write(trailer, 0)
+            file_data = list(file_data) + trailer
+            postamble = None
+
         granule = allocated_granules[0]
         allocated_granules = allocated_granules[1:]
         pointer = self.seek_granule(granule)
